@@ -119,7 +119,7 @@ def materialise(desc):
             dims = tuple(f"d{i}" for i in range(v.ndim))
         coords = None
         if desc.get("coord") and dims[0] in ("wavelength", "band"):
-            coords = {dims[0]: [400.0 + 20.0 * i for i in range(v.shape[0])]}
+            coords = {dims[0]: [400.0 + desc.get("wl0", 0.0) + desc.get("wlstep", 20.0) * i for i in range(v.shape[0])]}
         return xr.DataArray(v, dims=dims, coords=coords)
     if form == "pyint":
         return int(desc["v"])
@@ -489,6 +489,34 @@ def state_ok(kind, rows, cols, st):
     return None
 
 
+def assigned_violates(kind, rows, cols, name, desc):
+    """why the assigned object is not 'an array of the detector's shape and an allowed numeric type' (None if it is one)"""
+    import numpy as np
+    import xarray as xr
+
+    x = materialise(desc)
+    want = "u" if kind == "image" else "f"
+    if name == "set3":
+        if not isinstance(x, xr.DataArray):
+            return f"a {type(x).__name__}"
+        if x.dtype.kind != want:
+            return f"a DataArray of dtype {x.dtype}"
+        if x.ndim != 3 or list(x.shape[1:]) != [rows, cols]:
+            return f"a DataArray of shape {x.shape}"
+        return None
+    if name == "set" and not isinstance(x, np.ndarray):
+        return None if isinstance(x, (list, np.generic)) else f"a {type(x).__name__}"   # (array-likes are rejected by the code; not demanded by the statement)
+    try:
+        a = np.asarray(x)
+    except Exception:  # noqa: BLE001
+        return None
+    if a.dtype.kind != want:
+        return f"an array of dtype {a.dtype}"
+    if list(a.shape) != [rows, cols]:
+        return f"an array of shape {a.shape}"
+    return None
+
+
 def property_predicate(box, impl):
     """returns [(key, why, op index)] — every way this history contradicts the statement"""
     kind, rows, cols = box["kind"], box["rows"], box["cols"]
@@ -509,6 +537,12 @@ def property_predicate(box, impl):
         if assignment and out != "ok" and st != prev:
             bad.append((f"C13:failed-assignment-changed-content:{kind}.{name}",
                         f"op #{i} {name} raised {out} but the content changed", i))
+        if out == "ok" and name in ("set", "set3", "update") and len(op) > 1 and op[1] is not None and not (name == "set3" and kind != "photon") \
+                and not (name == "update" and kind == "photon"):
+            vio = assigned_violates(kind, rows, cols, name, op[1])
+            if vio:
+                bad.append((f"C13:violating-assignment-accepted:{kind}.{name}",
+                            f"op #{i} {name} of {vio} was accepted instead of raising (the container now holds {st and st.get('npdt')} {st and st.get('shape')})", i))
         if kind == "photon" and assignment and out == "ok" and st and st.get("neg"):
             bad.append(("C13:photon-negative-after-assignment", f"op #{i} {name}: negative photon counts stored", i))
         if out == "ok" and name in ("set", "set3") and not (name == "set3" and kind != "photon"):
@@ -570,8 +604,9 @@ def final_container(box):
     return c
 
 
-def values_token(x, side):
-    """canonical text of an array's values: equal tokens <=> same shape and elementwise equal values"""
+def values_token(x, side, wavelengths=None):
+    """canonical text of an array's values: equal tokens <=> same shape and elementwise equal values
+    (and, for a 3-D photon cube, the same wavelength coordinates: the labels of its first axis are part of the array)"""
     import math
     from fractions import Fraction
 
@@ -588,6 +623,8 @@ def values_token(x, side):
             out.append(str(Fraction(v)))
         else:
             out.append(f"?{side}{n}")
+    if wavelengths is not None:
+        out.append("wl=" + ";".join(str(Fraction(float(w))) for w in wavelengths))
     return ",".join(out)
 
 
@@ -597,7 +634,8 @@ def box_view(box, c, side):
     view = {"kind": box["kind"], "rows": box["rows"], "cols": box["cols"], "st": None, "pubshape": list(c.shape)}
     if st is not None and st.get("type") in ("ndarray", "DataArray"):
         x = c.array_3d if st["is3d"] else c.array
-        view["st"] = {"is3d": st["is3d"], "shape": st["shape"], "dt": st["dt"], "tok": values_token(x.values if st["is3d"] else x, side)}
+        view["st"] = {"is3d": st["is3d"], "shape": st["shape"], "dt": st["dt"], "tok": values_token(x.values if st["is3d"] else x, side,
+                                                  x.coords["wavelength"].values.tolist() if st["is3d"] and "wavelength" in x.coords else None)}
     elif st is not None:
         view["st"] = {"is3d": False, "shape": [], "dt": "other", "tok": f"?{side}"}
     return view
@@ -699,7 +737,25 @@ def gen_eq_case(rng, ids):
         sa, sb = rng.choice([("empty", "empty"), ("full", "full"), ("empty", "full")])
         a = directed_box(rng, ids, kind, rows, cols, sa)
         b = directed_box(rng, ids, kind, cols + 1, rows, sb)
-    elif style < 0.7:  # photons: 2-D vs 3-D vs empty
+    elif style < 0.68:  # 3-D photon cubes of equal shape and values whose wavelength coordinates differ (disjoint / shifted / other step)
+        seed = rng.randrange(10**6)
+        a = directed_box(rng, ids, "photon", rows, cols, "full3", seed, "float64")
+        b = directed_box(rng, ids, "photon", rows, cols, "full3", seed if rng.random() < 0.8 else seed + 1, "float64")
+        w = rng.choice([1, 2, 3])
+        for bx in (a, b):
+            bx["ops"][0][1]["shape"] = [w, rows, cols]
+            bx["ops"][0][0] = "set3"
+        how = rng.choice(["disjoint", "shift1", "step", "same", "disjoint"])
+        if how == "disjoint":
+            b["ops"][0][1]["wl0"] = 1000.0
+        elif how == "shift1":
+            b["ops"][0][1]["wl0"] = 20.0
+        elif how == "step":
+            b["ops"][0][1]["wlstep"] = 25.0
+            b["ops"][0][1]["wl0"] = 5.0
+        if rng.random() < 0.5:
+            a, b = b, a
+    elif style < 0.74:  # photons: 2-D vs 3-D vs empty
         sa, sb = rng.choice([("full", "full3"), ("full3", "full3"), ("full3", "empty"), ("empty", "full3")])
         seed = rng.randrange(10**6)
         a = directed_box(rng, ids, "photon", rows, cols, sa, seed, "float64")
@@ -831,7 +887,7 @@ def body(ck: common.Check):
                "non-trivial = at least two ops with at least one success (eq: at least one side full); distinct by canonical JSON")
     ck.assumptions = [
         "'shape' in the equality clause is the public .shape (for Photon: () when empty, else the stored array's shape)",
-        "'equal arrays' = same shape and elementwise equal values, dtype-insensitive; pairs of bytewise-identical arrays containing NaN are not judged",
+        "'equal arrays' = same shape and elementwise equal values, dtype-insensitive (for 3-D photon cubes also the same wavelength coordinates); pairs of bytewise-identical arrays containing NaN are not judged",
         "a failed in-place addition on a FULL container is not an 'assignment' of the statement: its content is compared with the model but not judged by the predicate",
         "an xarray DataArray added in place to a full numpy-backed (non-photon) container is never generated (numpy adds into the buffer before the setter rejects the DataArray result)",
         "in-place addition of a negative array to a photon container is recorded, not judged (DESIGN 6b)",
